@@ -2,7 +2,7 @@
 C14 — storage-class transitions preserve objects (the routing of part data to named stores is
 validated by the tie on the `named` stack; the model abstracts stores to "parts are readable").
 -/
-import Pithos.Lemmas.S3Current
+import Pithos.Lemmas.S3ByVid
 import Pithos.Props.C13
 
 namespace Pithos.C14
@@ -47,6 +47,111 @@ theorem transition_preserves (q : Quirks) (s s1 : State) (hinv : Inv s) (b k cls
         refine ⟨viewOf r, viewOf y, g0, g1, ?_⟩
         rw [← hy]
         simp [viewOf, touch, Row.content, Row.size]
+
+/-- **transition_preserves_version ("… an object *or version* …").** A successful transition of the
+version addressed by `vid` (the null version or a numbered one, current or not) changes only the
+reported storage class of that version: GET/HEAD by the same version id returns the same version
+id, body, size, ETag, content type, metadata and tags, with the class set to the target; whether
+the version is the current one is unchanged as well. Every reachable state, every quirk setting. -/
+theorem transition_preserves_version (q : Quirks) (s s1 : State) (hinv : Inv s) (b k cls : String)
+    (vid : Option Nat) (hack : step q s (.transition b k cls (some vid)) = (s1, .unit)) :
+    ∃ v0 v1, (step q s (.get b k (some vid))).2 = .obj v0 ∧ (step q s1 (.get b k (some vid))).2 = .obj v1 ∧
+      (step q s (.head b k (some vid))).2 = .obj v0 ∧ (step q s1 (.head b k (some vid))).2 = .obj v1 ∧
+      v1.vid = v0.vid ∧ v1.body = v0.body ∧ v1.size = v0.size ∧ v1.etag = v0.etag ∧ v1.ct = v0.ct ∧
+      v1.md = v0.md ∧ v1.tags = v0.tags ∧ v1.cls = some cls := by
+  have hfbt : ∀ x, findBucket { s with clock := s.clock + 1 } x = findBucket s x := fun _ => rfl
+  simp only [step, stepT, hfbt] at hack
+  cases hfb : findBucket s b with
+  | none => simp [hfb] at hack
+  | some bk =>
+    simp only [hfb] at hack
+    cases hl : rowByVid bk k vid with
+    | none => simp [hl] at hack
+    | some r =>
+      simp only [hl] at hack
+      by_cases hd : r.dm = true
+      · simp [hd] at hack
+      · simp only [hd] at hack
+        simp only [Bool.false_eq_true, ↓reduceIte, Prod.mk.injEq, and_true] at hack
+        have hbk := hinv bk (findBucket_mem hfb)
+        have hname := findBucket_some_name hfb
+        subst hack
+        generalize hy : touch q (s.clock + 1) _ = y
+        have hyid : y.rowId = r.rowId := by rw [← hy]; simp [touch]
+        have hyk : y.key = r.key := by rw [← hy]; simp [touch]
+        have hyv : y.vid = r.vid := by rw [← hy]; simp [touch]
+        have hl1 : rowByVid (replaceRow bk y) k vid = some y := rowByVid_repl_keep hbk hl hyid hyk hyv
+        have hfb1 : findBucket (setBucket { s with clock := s.clock + 1 } (replaceRow bk y)) b = some (replaceRow bk y) := by
+          exact findBucket_setBucket (s := { s with clock := s.clock + 1 }) hfb (by rw [replaceRow_name, hname])
+        have hdy : y.dm = false := by rw [← hy]; simp [touch]
+        obtain ⟨g0, h0⟩ := get_version (q := q) hfb hl (by simpa using hd)
+        obtain ⟨g1, h1⟩ := get_version (q := q) hfb1 hl1 hdy
+        refine ⟨viewOf r, viewOf y, g0, g1, h0, h1, ?_⟩
+        rw [← hy]
+        simp [viewOf, touch, Row.content, Row.size]
+
+/-- The projection of a row that a transition must not change: everything but the storage class
+(and the bookkeeping fields `updated` / `seqBase`). -/
+def keep (r : Row) :=
+  (r.rowId, r.key, r.vid, r.latest, r.dm, r.content, r.etag, r.tags, r.md, r.ct)
+
+/-- **transition_changes_only_class (whole bucket).** An acknowledged transition — of the current
+version or of a version addressed by id — leaves, for *every* row of the bucket, the key, version
+id, current-version flag, delete-marker flag, content, ETag, tags, metadata and content type
+unchanged, in the same order: listings, "which version is current" and every other version are
+not affected. Every reachable state, every quirk setting. -/
+theorem transition_changes_only_class (q : Quirks) (s s1 : State) (hinv : Inv s) (b k cls : String)
+    (vid : Option (Option Nat)) (bk : Bucket) (hfb : findBucket s b = some bk)
+    (hack : step q s (.transition b k cls vid) = (s1, .unit)) :
+    ∃ bk1, findBucket s1 b = some bk1 ∧ bk1.rows.map keep = bk.rows.map keep := by
+  have hfbt : ∀ x, findBucket { s with clock := s.clock + 1 } x = findBucket s x := fun _ => rfl
+  have hname := findBucket_some_name hfb
+  have hbk := hinv bk (findBucket_mem hfb)
+  -- whichever row the request addressed, and whatever replaces it with the same `keep` projection
+  have key : ∀ (r : Row), r ∈ bk.rows → ∀ y : Row, y.rowId = r.rowId → keep y = keep r →
+      (replaceRow bk y).rows.map keep = bk.rows.map keep := by
+    intro r hr y hyid hyk
+    rw [replaceRow_rows]
+    unfold repl
+    rw [List.map_map]
+    apply List.map_congr_left
+    intro x hx
+    by_cases hxy : x.rowId = y.rowId
+    · have hxr : x = r := eq_of_id_eq hbk.nodup hx hr (hxy.trans hyid)
+      subst hxr
+      simp [hxy, hyk]
+    · simp [hxy]
+  have fin : ∀ r ∈ bk.rows, ∀ y : Row, y.rowId = r.rowId → keep y = keep r →
+      s1 = setBucket { s with clock := s.clock + 1 } (replaceRow bk y) →
+      ∃ bk1, findBucket s1 b = some bk1 ∧ bk1.rows.map keep = bk.rows.map keep := by
+    intro r hr y hyid hyk h
+    subst h
+    exact ⟨_, findBucket_setBucket (s := { s with clock := s.clock + 1 }) hfb
+      (by rw [replaceRow_name, hname]), key r hr y hyid hyk⟩
+  simp only [step, stepT, hfbt, hfb] at hack
+  cases vid with
+  | none =>
+    simp only [] at hack
+    cases hl : latestRow bk k with
+    | none => simp [hl] at hack
+    | some r =>
+      simp only [hl] at hack
+      by_cases hd : r.dm = true
+      · simp [hd] at hack
+      · simp only [hd, Bool.false_eq_true, ↓reduceIte, Prod.mk.injEq, and_true] at hack
+        have hdf : r.dm = false := by simpa using hd
+        exact fin r (latestRow_some hl).1 _ (by simp [touch]) (by simp [keep, touch, Row.content, hdf]) hack.symm
+  | some v =>
+    simp only [] at hack
+    cases hl : rowByVid bk k v with
+    | none => simp [hl] at hack
+    | some r =>
+      simp only [hl] at hack
+      by_cases hd : r.dm = true
+      · simp [hd] at hack
+      · simp only [hd, Bool.false_eq_true, ↓reduceIte, Prod.mk.injEq, and_true] at hack
+        have hdf : r.dm = false := by simpa using hd
+        exact fin r (rowByVid_mem hl).1 _ (by simp [touch]) (by simp [keep, touch, Row.content, hdf]) hack.symm
 
 /-- Transitions never touch any *other* version that has a version id (corollary of C13). -/
 theorem transition_keeps_other_versions (q : Quirks) (hq : q.appendLatestInPlace = false) (s : State) (hinv : Inv s)
